@@ -51,7 +51,7 @@ def hooks_alive() -> bool:
 KIND = {"rhs": "rhs", "monitor_values": "monitor", "missing_values": "missing", "scheme": "scheme"}
 
 
-def emit_event_to_traces(ev, model_id, monitor_index=None, zero_slope=None, full_order=None):
+def emit_event_to_traces(ev, model_id, monitor_index=None, zero_slope=None, full_order=None, assignments=None):
     """One Emit event -> list of TraceEmit records (one per function in the emitted text)."""
     gen = ev["generator"]
     backend = "c" if gen.startswith("C") else ("jax" if gen.startswith("Jax") else "python")
@@ -67,10 +67,6 @@ def emit_event_to_traces(ev, model_id, monitor_index=None, zero_slope=None, full
         else:
             n = len(ev.get("requested") or {})
         stmts = f["stmts"]
-        if backend == "jax":
-            for s in stmts:
-                if s["k"] == "return":
-                    s["uses"] = []  # the returned list reads the _values_i names, which are stores, not defs
         out.append({
             "id": f"{model_id}:{backend}:{name}:ru={ev['remove_unused']}",
             "model": model_id, "fn": name, "kind": kind, "backend": backend, "remove_unused": ev["remove_unused"],
@@ -86,6 +82,9 @@ def emit_event_to_traces(ev, model_id, monitor_index=None, zero_slope=None, full
             "delta": (repr(abs(float(ev["kwargs"]["delta"]))) if "delta" in (ev.get("kwargs") or {}) else ""),
             "lin": {f"d{s}_dt": f"d{s}_dt_linearized" for s in sidx},
             "full_order": list(full_order or []),
+            # every assignment name of the model (from the loaded model, not from the hooks): what is a model name
+            # and what a helper local of the generated code
+            "assignments": sorted(assignments if assignments is not None else (ev.get("assignments") or [])),
         })
     return out
 
@@ -102,9 +101,19 @@ def validate_emit_traces(traces, workers=16, timeout=900):
     res = tlc.run_tlc("TraceEmit", cfg, workers=workers, timeout=timeout, env={"TRACE_FILE": path}, heap="12g",
                       stack="512m", constants_for_summary={"traces": len(traces)})
     os.unlink(path)
+    # verdicts[i] = the rule failures of trace i; a function the skeleton cannot account for is uninterpretable:
+    # nothing is claimed about it (reported in res.uninterpretable), notes are counted per rule
     verdicts = [None] * len(traces)
+    res.uninterpretable, res.note_counts = [], {}
     for r in res.records:
-        verdicts[r["tid"] - 1] = r["fails"]
+        i = r["tid"] - 1
+        if r["interpretable"]:
+            verdicts[i] = r["fails"]
+        else:
+            verdicts[i] = []
+            res.uninterpretable.append({"trace": traces[i]["id"], "why": r["why"], "unjudged_failures": len(r["fails"])})
+        for n in r["notes"]:
+            res.note_counts[n["rule"]] = res.note_counts.get(n["rule"], 0) + 1
     res.records = []
     return res, verdicts
 
@@ -117,7 +126,7 @@ def sort_groups(events, model_id):
             cur.append({"name": ev["name"], "iter": ev["iter"]})
         elif ev["ev"] == "SortOrder":
             key = json.dumps([cur, ev["order"], ev["assignments_only"]])
-            if key not in seen:
+            if key not in seen and cur:   # an order without recorded adds (sorter replaced) says nothing here
                 seen.add(key)
                 groups.append({"id": f"{model_id}:sort{len(groups)}", "model": model_id, "adds": cur,
                                "order": ev["order"], "assignments_only": ev["assignments_only"]})
@@ -162,6 +171,7 @@ def record_model(text: str, model_id: str, backends=("python", "jax", "c"), sche
     traces, sorts, decides = [], [], []
     # states whose rate expression does not mention the state itself (through the text, not through sympy)
     zero_slope = [d.state.name for d in ode.state_derivatives if d.state.name not in d.value.dependencies]
+    assignments = [a.name for a in ode.intermediates] + [d.name for d in ode.state_derivatives]
     for backend in backends:
         for ru in remove_unused:
             if backend == "c":
@@ -171,11 +181,12 @@ def record_model(text: str, model_id: str, backends=("python", "jax", "c"), sche
             else:
                 cg = PythonCodeGenerator(ode, format=PF.none, remove_unused=ru)
             mon = monitor_index_of(cg) if backend != "c" else None
+            calls = []   # (fn, emitted text, fields): the same executions seen through the public API
             with Recorder() as rec:
-                cg.rhs()
-                cg.monitor_values()
+                calls.append(("rhs", cg.rhs(), {}))
+                calls.append(("monitor_values", cg.monitor_values(), {}))
                 if missing_values:
-                    cg.missing_values(missing_values)
+                    calls.append(("missing_values", cg.missing_values(missing_values), {"requested": dict(missing_values)}))
                 for sc in schemes:
                     kw = {}
                     if "rush_larsen" in sc:
@@ -183,18 +194,46 @@ def record_model(text: str, model_id: str, backends=("python", "jax", "c"), sche
                         kw["delta"] = DELTAS[(zlib.crc32(model_id.encode()) + sc.startswith("hybrid") + bool(ru)) % len(DELTAS)]
                     if sc == "hybrid_rush_larsen":
                         kw["stiff_states"] = stiff if stiff is not None else [s.name for s in ode.states[::2]]
-                    cg.scheme(get_scheme(sc), **kw)
+                    calls.append(("scheme", cg.scheme(get_scheme(sc), **kw), {"scheme": sc, "kwargs": dict(kw)}))
+            if not any(e["ev"] == "Emit" for e in rec.events):
+                # the Emit hook did not fire (generator restructured): the emitted text and the index functions of
+                # the public API carry the same information
+                rec.events.extend(_events_from_text(cg, calls, ru))
             # the sort of the complete graph recorded in this process: the longest assignments-only order
             orders = [e["order"] for e in rec.events if e["ev"] == "SortOrder" and e.get("assignments_only")]
             full_order = max(orders, key=len) if orders else []
             for ev in rec.events:
                 if ev["ev"] == "Emit":
-                    traces.extend(emit_event_to_traces(ev, model_id, mon, zero_slope, full_order))
+                    traces.extend(emit_event_to_traces(ev, model_id, mon, zero_slope, full_order, assignments))
                 elif ev["ev"] in ("SortAdd", "SortOrder"):
                     sorts.append(ev)
                 elif ev["ev"] == "SchemeDecide":
                     decides.append(ev)
     return traces, sorts, decides, ode
+
+
+def _index_of(code: str, fn: str, names) -> dict:
+    ns = {}
+    exec(code, ns)
+    return {n: int(ns[fn](n)) for n in names}
+
+
+def _events_from_text(cg, calls, ru):
+    ode = cg.ode
+    gen = type(cg).__name__
+    if gen.startswith("C"):
+        sidx = {s.name: i for i, s in enumerate(ode.sorted_states())}
+        pidx = {p.name: i for i, p in enumerate(ode.parameters)}
+    else:
+        sidx = _index_of(cg.state_index(), "state_index", [s.name for s in ode.states])
+        pidx = _index_of(cg.parameter_index(), "parameter_index", [p.name for p in ode.parameters])
+    out = []
+    for fn, code, fields in calls:
+        out.append({"ev": "Emit", "fn": fn, "generator": gen, "remove_unused": ru, "state_index": sidx, "parameter_index": pidx,
+                    "missing_index": dict(getattr(ode, "missing_variables", {}) or {}), "code": code, "source": "text",
+                    "assignments": sorted(a.name for a in ode.intermediates) + sorted(d.name for d in ode.state_derivatives),
+                    **fields})
+    return out
 
 
 def repo_models(tier: str):
